@@ -34,12 +34,12 @@ claim('C13', 'iosim',
 
 claim('C11', 'etsim+iosim',
       'deterministic simulation: seeded simulated Einstein-Toolkit writer (process decomposition, layouts, crash/restart overlap) + real readers under seeded enumeration order and hash seeds, injected read errors (h5py seam), cell-level ground-truth oracle',
-      "Seeded search over simulated ET runs (1-4 restarts with overlapping iterations, 1-2 levels, 1-30 processes in tensor-product / hierarchical / k-d decompositions, permuted chunk numbering, the 4 file layouts and key variants, empty restarts) read back through the real aurel.reading code under a seeded directory-enumeration order and 3 PYTHONHASHSEED classes. Every returned cell is compared with the writer's ground truth, in which each value encodes (variable, restart, level, iteration, i, j, k). In 30% of the runs one file open inside a read or catalogue call fails (EIO): that call may raise, every later call must be exact. Sampling, not proof.",
+      "Seeded search over simulated ET runs (1-4 restarts with overlapping iterations, 1-2 levels, 1-30 processes in tensor-product / hierarchical / k-d decompositions, permuted chunk numbering, the 4 file layouts and key variants, empty restarts) read back through the real aurel.reading code under a seeded directory-enumeration order and 3 PYTHONHASHSEED classes. Every returned cell is compared with the writer's ground truth, in which each value encodes (variable, restart, level, iteration, i, j, k). In 30% of the runs one file open inside a read or catalogue call fails (EIO): that call may raise, every later call must be exact. A second simulation of the same name may be read in between; 3D output may be single precision. Sampling, not proof.",
       "Trusted: the etsim writer model reproduces what Carpet writes as far as aurel reads it (validated against the four repository fixtures' attributes); h5py/tmpfs.",
       'DESIGN.md section 4 (C11), 3.3')
 claim('C12', 'etsim+iosim',
       'deterministic simulation: seeded histories of cached/uncached read_data calls on a simulated run, injected I/O errors while the cache is written or read (h5py seam), ground-truth oracle + audit of every cache dataset after every call',
-      "Seeded search over histories of 2-8 read_data calls (split_per_it True/False interleaved; iteration/variable/level/restart subsets; tensor names vs component names; biased to partially filled caches) on a simulated multi-restart ET run starting from an empty cache. After every call the returned arrays are compared with ground truth and every dataset of every all_iterations/it_<n>.hdf5 is audited against the (variable, iteration, level, restart) it is filed under, so a poisoned cache is reported at the call that wrote it. In 30% of the runs one h5py call of a read fails (ENOSPC at the n-th create_dataset, EIO/EACCES at the n-th open): the failed call may raise or (where the catalogue skips an unreadable restart) lose data, but it never returns wrong cells, the audit holds unconditionally, and every later call is exact again. Sampling, not proof.",
+      "Seeded search over histories of 2-8 read_data calls (split_per_it True/False interleaved; iteration/variable/level/restart subsets; tensor names vs component names; biased to partially filled caches) on a simulated multi-restart ET run starting from an empty cache. After every call the returned arrays are compared with ground truth and every dataset of every all_iterations/it_<n>.hdf5 is audited against the (variable, iteration, level, restart) it is filed under, so a poisoned cache is reported at the call that wrote it. In 30% of the runs one h5py call of a read fails (ENOSPC at the n-th create_dataset, EIO/EACCES at the n-th open): the failed call may raise or (where the catalogue skips an unreadable restart) lose data, but it never returns wrong cells, the audit holds unconditionally, and every later call is exact again. Further swarm ingredients: reads from the checkpoints (usecheckpoints=True) interleaved with cached reads on runs with single-precision 3D output, a second simulation of the same name under another root read in between, and (20% of multi-restart runs) reads with skip_last=True while the simulated run is still going on, writer events between the reads. Sampling, not proof.",
       "Trusted: etsim model (as C11), h5py/tmpfs. Only variables present in the simulation are requested.",
       'DESIGN.md section 4 (C12)')
 claim('C18', 'etsim+iosim',
@@ -51,7 +51,7 @@ claim('C18', 'etsim+iosim',
 _CORE_NOTE = "Trusted: NumPy/h5py; the reference model (a fresh AurelCore with clean-up disabled, asked only the one request) and, for exact-solution inputs, the independent refgr oracle (validated against aurel to 1e-8 on data where both constructions are right). Physical-branch keys are compared only on on-shell inputs with truncation-aware tolerances; ill-conditioned comparisons are counted as inconclusive."
 claim('C01', 'coresim',
       'deterministic simulation: seeded guard-aware request histories x seeded eviction knobs (fault = loss of cached state at points the caller does not control) and injected allocation failures inside requests (n-th nested computation / n-th call of an aurel function via sys.settrace / n-th einsum via a numpy proxy, counted from the start or the end of the request) vs a fresh no-eviction reference instance; ddmin-minimised replay files',
-      "Seeded search over (generated non-flat spacetime presented through a seeded input set) x (cache knobs: clean-up period 1..20, memory threshold 1..40 scalars or default, importance overrides) x (guard-aware history of GET/HELPER/SET_IMPORTANCE ops). After every op the returned value or exception is compared with a fresh instance that holds only the inputs and is asked only that request. Eviction fires inside nested computations in most runs. About 7% of the requests carry one injected allocation failure; the failed request promises nothing, every later request is compared as usual. Inputs may be supplied after the caller looked at their default. Sampling, not proof.",
+      "Seeded search over (generated non-flat spacetime presented through a seeded input set) x (cache knobs: clean-up period 1..20, memory threshold 1..40 scalars or default, importance overrides) x (guard-aware history of GET/HELPER/SET_IMPORTANCE ops). After every op the returned value or exception is compared with a fresh instance that holds only the inputs and is asked only that request. Eviction fires inside nested computations in most runs. About 7% of the requests carry one injected allocation failure; the failed request promises nothing, every later request is compared as usual. Inputs may be supplied after the caller looked at their default; helper arguments may be temporaries; a second AurelCore object on the same grid (another spacetime) may be asked something in between. Sampling, not proof.",
       _CORE_NOTE, 'DESIGN.md section 4 (C01)')
 claim('C02', 'coresim+timesim+iosim',
       'deterministic simulation: seeded request / over_time / save-read histories with a byte-checksum + read-only-flag registry of every array and argument object supplied or returned, re-verified after every op (incl. ops that fail through an injected fault)',
